@@ -45,10 +45,22 @@ impl EventStore {
 
         // Determine if we just created it
         // (not long enough for the required end offset)
-        let new = len < mem::size_of::<usize>();
+        let mut new = len < mem::size_of::<usize>();
+
+        // A file that was grown to its initial size by a run that was interrupted before
+        // it wrote the end offset is also new: the end offset is never less than its
+        // own size, so a smaller value means it was never written.
+        if !new {
+            use std::os::unix::fs::FileExt;
+            let mut end_offset = [0u8; mem::size_of::<usize>()];
+            event_map_file.read_exact_at(&mut end_offset, 0)?;
+            if usize::from_le_bytes(end_offset) < mmap_append::HEADER_SIZE {
+                new = true;
+            }
+        }
 
         // If brand new:
-        if new {
+        if new && len < EVENT_MAP_CHUNK {
             // grow to initial size
             len = EVENT_MAP_CHUNK;
             event_map_file.set_len(EVENT_MAP_CHUNK as u64)?;
